@@ -274,6 +274,30 @@ package authf
 //@   ensures [C05] validR(readBuf)
 //@   safety [C05]
 //
+//@ func (*AuthRequest).WriteTo
+//@   requires st != nil && validB(buf) && len(st.SKey.SApplication) < 4294967296 && len(st.SKey.SServer) < 4294967296 && len(st.SKey.SObjName) < 4294967296 && len(st.SToken) < 4294967296
+//@   let e0 = buf.buf.bytes
+//@   let e1 = e0 ++ head(StructBegin, 1) ++ encString(1, st.SKey.SApplication) ++ encString(2, st.SKey.SServer) ++ encString(3, st.SKey.SObjName) ++ head(StructEnd, 0)
+//@   let e2 = e1 ++ encString(2, st.SToken)
+//@   let pre = e2
+//@   opaque head encInt8 encInt16 encInt32 encInt64 encString encBool
+//@   perreturn
+//@   modifies buf.buf.bytes
+//@   ensures [C03] err == nil && buf.buf.bytes == pre
+//@   safety [C03]
+//
+//@ func (*AuthRequest).WriteBlock
+//@   requires st != nil && validB(buf) && len(st.SKey.SApplication) < 4294967296 && len(st.SKey.SServer) < 4294967296 && len(st.SKey.SObjName) < 4294967296 && len(st.SToken) < 4294967296
+//@   let e0 = buf.buf.bytes ++ head(StructBegin, tag)
+//@   let e1 = e0 ++ head(StructBegin, 1) ++ encString(1, st.SKey.SApplication) ++ encString(2, st.SKey.SServer) ++ encString(3, st.SKey.SObjName) ++ head(StructEnd, 0)
+//@   let e2 = e1 ++ encString(2, st.SToken)
+//@   let pre = e2 ++ head(StructEnd, 0)
+//@   opaque head encInt8 encInt16 encInt32 encInt64 encString encBool
+//@   perreturn
+//@   modifies buf.buf.bytes
+//@   ensures [C03] result == nil && buf.buf.bytes == pre
+//@   safety [C03]
+//
 //@ func (*TokenRequest).ResetDefault
 //@   requires st != nil
 //@   pure
@@ -362,6 +386,28 @@ package authf
 //@   ensures [C05] validR(readBuf)
 //@   safety [C05]
 //
+//@ func (*ApplyTokenRequest).WriteTo
+//@   requires st != nil && validB(buf) && len(st.SKey.SApplication) < 4294967296 && len(st.SKey.SServer) < 4294967296 && len(st.SKey.SObjName) < 4294967296
+//@   let e0 = buf.buf.bytes
+//@   let e1 = e0 ++ head(StructBegin, 1) ++ encString(1, st.SKey.SApplication) ++ encString(2, st.SKey.SServer) ++ encString(3, st.SKey.SObjName) ++ head(StructEnd, 0)
+//@   let pre = e1
+//@   opaque head encInt8 encInt16 encInt32 encInt64 encString encBool
+//@   perreturn
+//@   modifies buf.buf.bytes
+//@   ensures [C03] err == nil && buf.buf.bytes == pre
+//@   safety [C03]
+//
+//@ func (*ApplyTokenRequest).WriteBlock
+//@   requires st != nil && validB(buf) && len(st.SKey.SApplication) < 4294967296 && len(st.SKey.SServer) < 4294967296 && len(st.SKey.SObjName) < 4294967296
+//@   let e0 = buf.buf.bytes ++ head(StructBegin, tag)
+//@   let e1 = e0 ++ head(StructBegin, 1) ++ encString(1, st.SKey.SApplication) ++ encString(2, st.SKey.SServer) ++ encString(3, st.SKey.SObjName) ++ head(StructEnd, 0)
+//@   let pre = e1 ++ head(StructEnd, 0)
+//@   opaque head encInt8 encInt16 encInt32 encInt64 encString encBool
+//@   perreturn
+//@   modifies buf.buf.bytes
+//@   ensures [C03] result == nil && buf.buf.bytes == pre
+//@   safety [C03]
+//
 //@ func (*ApplyTokenResponse).ResetDefault
 //@   requires st != nil
 //@   pure
@@ -387,6 +433,30 @@ package authf
 //@   ensures [C05] validR(readBuf)
 //@   safety [C05]
 //
+//@ func (*ApplyTokenResponse).WriteTo
+//@   requires st != nil && validB(buf) && len(st.SKey.SApplication) < 4294967296 && len(st.SKey.SServer) < 4294967296 && len(st.SKey.SObjName) < 4294967296 && len(st.SToken) < 4294967296
+//@   let e0 = buf.buf.bytes
+//@   let e1 = e0 ++ head(StructBegin, 1) ++ encString(1, st.SKey.SApplication) ++ encString(2, st.SKey.SServer) ++ encString(3, st.SKey.SObjName) ++ head(StructEnd, 0)
+//@   let e2 = e1 ++ encString(2, st.SToken)
+//@   let pre = e2
+//@   opaque head encInt8 encInt16 encInt32 encInt64 encString encBool
+//@   perreturn
+//@   modifies buf.buf.bytes
+//@   ensures [C03] err == nil && buf.buf.bytes == pre
+//@   safety [C03]
+//
+//@ func (*ApplyTokenResponse).WriteBlock
+//@   requires st != nil && validB(buf) && len(st.SKey.SApplication) < 4294967296 && len(st.SKey.SServer) < 4294967296 && len(st.SKey.SObjName) < 4294967296 && len(st.SToken) < 4294967296
+//@   let e0 = buf.buf.bytes ++ head(StructBegin, tag)
+//@   let e1 = e0 ++ head(StructBegin, 1) ++ encString(1, st.SKey.SApplication) ++ encString(2, st.SKey.SServer) ++ encString(3, st.SKey.SObjName) ++ head(StructEnd, 0)
+//@   let e2 = e1 ++ encString(2, st.SToken)
+//@   let pre = e2 ++ head(StructEnd, 0)
+//@   opaque head encInt8 encInt16 encInt32 encInt64 encString encBool
+//@   perreturn
+//@   modifies buf.buf.bytes
+//@   ensures [C03] result == nil && buf.buf.bytes == pre
+//@   safety [C03]
+//
 //@ func (*DeleteTokenRequest).ResetDefault
 //@   requires st != nil
 //@   pure
@@ -411,3 +481,25 @@ package authf
 //@   ensures [C05] readBuf.buf.i >= p0
 //@   ensures [C05] validR(readBuf)
 //@   safety [C05]
+//
+//@ func (*DeleteTokenRequest).WriteTo
+//@   requires st != nil && validB(buf) && len(st.SKey.SApplication) < 4294967296 && len(st.SKey.SServer) < 4294967296 && len(st.SKey.SObjName) < 4294967296
+//@   let e0 = buf.buf.bytes
+//@   let e1 = e0 ++ head(StructBegin, 1) ++ encString(1, st.SKey.SApplication) ++ encString(2, st.SKey.SServer) ++ encString(3, st.SKey.SObjName) ++ head(StructEnd, 0)
+//@   let pre = e1
+//@   opaque head encInt8 encInt16 encInt32 encInt64 encString encBool
+//@   perreturn
+//@   modifies buf.buf.bytes
+//@   ensures [C03] err == nil && buf.buf.bytes == pre
+//@   safety [C03]
+//
+//@ func (*DeleteTokenRequest).WriteBlock
+//@   requires st != nil && validB(buf) && len(st.SKey.SApplication) < 4294967296 && len(st.SKey.SServer) < 4294967296 && len(st.SKey.SObjName) < 4294967296
+//@   let e0 = buf.buf.bytes ++ head(StructBegin, tag)
+//@   let e1 = e0 ++ head(StructBegin, 1) ++ encString(1, st.SKey.SApplication) ++ encString(2, st.SKey.SServer) ++ encString(3, st.SKey.SObjName) ++ head(StructEnd, 0)
+//@   let pre = e1 ++ head(StructEnd, 0)
+//@   opaque head encInt8 encInt16 encInt32 encInt64 encString encBool
+//@   perreturn
+//@   modifies buf.buf.bytes
+//@   ensures [C03] result == nil && buf.buf.bytes == pre
+//@   safety [C03]
